@@ -16,11 +16,11 @@ for id in $ids; do
   d=$src/$id
   pkg=$(python3 -c "import json,sys;print(json.load(open('$d/meta.json'))['demo_pkg_dir'])")
   demo=$(ls $d/demo_*_test.go | head -1)
-  tn=TestDemo$(echo $id | tr '-' '_')
+  tn="^($(grep -o "^func Test[A-Za-z0-9_]*" $demo | sed 's/func //' | tr '\n' '|' | sed 's/|$//'))\$"
   patch=$d/patch.diff; [ -f $d/patch.ported.diff ] && patch=$d/patch.ported.diff
   git reset -q --hard HEAD; git clean -fdq
   cp $demo $pkg/
-  if go test -vet=off -count=1 -run "$tn" ./$pkg/ >/tmp/vseed.$$.d0 2>&1 && grep -q "^ok" /tmp/vseed.$$.d0; then demo0=pass; else demo0=FAIL; fi
+  if go test -vet=off -count=1 -run "$tn" ./$pkg/ >/tmp/vseed.$$.d0 2>&1 && grep -q "^ok" /tmp/vseed.$$.d0 && ! grep -q "no tests to run" /tmp/vseed.$$.d0; then demo0=pass; else demo0=FAIL; fi
   rm -f $pkg/$(basename $demo)
   if git apply "$patch" 2>/dev/null; then apply=ok; else apply=CONFLICT; fi
   build=-; suite=-; demo1=-
